@@ -2,7 +2,7 @@
    Statements only; proofs in Amm/LiqInv.v, Amm/LiqSwap.v, Amm/LiqMonitor.v. *)
 From Coq Require Import ZArith List Bool.
 Import ListNotations.
-From Sunrise Require Import Base.Outcome Base.Dec Amm.Math Amm.Pool Amm.LiqDefs Amm.LiqInv Amm.LiqSwap Amm.LiqMonitor.
+From Sunrise Require Import Base.Outcome Base.Dec Amm.Math Amm.Pool Amm.LiqDefs Amm.LiqInv Amm.LiqSwap Amm.LiqMonitor Amm.Fees Amm.FeesSwap Amm.LiqCursor.
 Local Open Scope Z_scope.
 
 (* The invariant (LiqDefs.Inv): active liquidity = sum over positions containing the current tick;
@@ -57,6 +57,18 @@ Print Assumptions C04_cross_down.
 Theorem C04_step_partial : forall s o, Inv s -> swap_side s o -> Inv (fst (step s o)).
 Proof. exact step_inv. Qed.
 Print Assumptions C04_step_partial.
+
+(* the same for a swap, with the hypothesis reduced to the tick<->price conversion: every tick the
+   loop recomputes from a price lies in the bucket it was walking (Fees.cursor_ok), plus the
+   accumulator well-formedness FeeWF (an invariant of every operation, C06_step_preserves_wf) and a
+   non-zero final price/tick pair *)
+Theorem C04_swap_cursor_partial : forall s ei din dout specified s' i o,
+  Inv s -> FeeWF s -> swap_cursor_ok s ei din specified ->
+  swap s ei din dout specified true = Ok (s', i, o) ->
+  has_position (a_pool s') = true ->
+  Inv s'.
+Proof. exact swap_inv_cursor. Qed.
+Print Assumptions C04_swap_cursor_partial.
 
 Theorem C04_reach_partial : forall ops s, Inv s -> sides s ops -> Inv (run s ops).
 Proof. exact reach_inv. Qed.
